@@ -124,11 +124,12 @@ def rule_D4(tree: Tree) -> RuleResult:
     for n in body_walk(run.node):
         if isinstance(n, ast.Call) and isinstance(n.func, ast.Attribute) and n.func.attr in ("extend",) and dotted(n.func.value) == "server_ports":
             a = n.args[0]
-            if isinstance(a, (ast.ListComp, ast.GeneratorExp)) and isinstance(a.elt, ast.Call) and dotted(a.elt.func) == "int" and "serverports" in src(a.generators[0].iter):
+            if isinstance(a, (ast.ListComp, ast.GeneratorExp)) and isinstance(a.elt, ast.Call) and dotted(a.elt.func) == "int" and "serverports" in src(a.generators[0].iter) \
+                    and not a.generators[0].ifs and len(a.generators) == 1:
                 ok = True
             if isinstance(a, ast.Call) and dotted(a.func) == "map" and dotted(a.args[0]) == "int":
                 ok = True
-    r.ob(ok, Finding("D4", "main:run:serverports-int", "ports given with -p must be added to the server-port list as int (packet ports are ints; a str never matches)", main.line(run.node)))
+    r.ob(ok, Finding("D4", "main:run:serverports-int", "every port given with -p must be added to the server-port list, as int and unfiltered (packet ports are ints; a str never matches; 1–65535 are all valid)", main.line(run.node)))
     # keep_original_ports / portmap flow: run -> handle_packet -> Session -> OutputBuilder ; run -> handle_quic_packet -> QuicSession -> QUICOutputbuilder
     from ..callgraph import CallGraph
     cg = CallGraph.of(tree)
